@@ -34,11 +34,20 @@ def _used_vars(expr: Optional[ast.expr]) -> Set[str]:
     return result
 
 
+class _UnsupportedAssignmentTarget(Exception):
+    """The target of an assignment is not a variable or a tuple of variables."""
+
+    def __init__(self, target: ast.expr) -> None:
+        super().__init__("Only simple assignments supported.")
+        self.target = target
+
+
 def _lhs_vars(lhs: ast.expr) -> Set[str]:
     """Return set of assigned variables in the lhs of an assignment statement."""
 
     def get_id(e):
-        assert isinstance(e, ast.Name), "Only simple assignments supported."
+        if not isinstance(e, ast.Name):
+            raise _UnsupportedAssignmentTarget(e)
         return e.id
 
     if isinstance(lhs, ast.Tuple):
@@ -57,9 +66,15 @@ class AstAnalyzer:
         self._constant_if_condition: dict[ast.If, bool] = {}
         self._live_in: dict[ast.stmt, Set[str]] = {}
         self._live_out: dict[ast.stmt, Set[str]] = {}
-        if globals:
-            self._compute_constant_if_conditions(fun, globals)
-        self.do_liveness_analysis(fun)
+        try:
+            if globals:
+                self._compute_constant_if_conditions(fun, globals)
+            self.do_liveness_analysis(fun)
+        except _UnsupportedAssignmentTarget as e:
+            # Report the unsupported target (x[0] = ..., a, *b = ...) with its position
+            raise ValueError(
+                formatter(e.target, "Only assignments to variables are supported.")
+            ) from e
 
     def live_in(self, stmt: ast.stmt) -> Set[str] | None:
         """Get the set of variables that are live at the entry of the given statement."""
